@@ -35,8 +35,8 @@ Apply(o, ev, fr) ==
     [] ev.op = "Age"     -> O!OAge(o, ev.r, ev.age, ev.now)
     [] ev.op = "UpStart" -> O!OUpStart(o, ev.r)
     [] ev.op = "UpEnd"   -> O!OUpEnd(o, ev.r, ev.hasResp, ev.ttl)
-    [] ev.op = "Publish" -> O!OPublish(o, ev.e, ev.d, ev.k, ev.v, PubNow(ev, fr), ev.ttl, ev.st)
-    [] ev.op = "Hfp"     -> O!OHfp(o, ev.e, ev.d, ev.k, PubNow(ev, fr), ev.eff, ev.st)
+    [] ev.op = "Publish" -> O!OPublish(o, ev.r, ev.e, ev.d, ev.k, ev.v, PubNow(ev, fr), ev.ttl, ev.st)
+    [] ev.op = "Hfp"     -> O!OHfp(o, ev.r, ev.e, ev.d, ev.k, PubNow(ev, fr), ev.eff, ev.st)
     [] ev.op = "End"     -> O!OEnd(o, ev.r, ev.label, ev.err, ev.v)
     [] ev.op = "Removed" -> O!ORemoved(o, ev.d, ev.k)
     [] ev.op = "Purged"  -> O!OPurged(o, ev.d, ev.k, ev.ok)
